@@ -258,7 +258,8 @@ impl SparqlDatabase {
         let mut in_literal = false;
         let mut escaped = false;
 
-        for ch in content.chars() {
+        let mut chars = content.chars().peekable();
+        while let Some(ch) = chars.next() {
             if escaped {
                 current.push(ch);
                 escaped = false;
@@ -273,12 +274,13 @@ impl SparqlDatabase {
                     in_literal = !in_literal;
                     current.push(ch);
                 }
-                '<' if !in_literal => {
+                '<' if !in_literal && !in_uri => {
                     current.push(ch);
-                    // Check if this starts a quoted triple (<<)
-                    if current.ends_with("<<") {
+                    if chars.peek() == Some(&'<') {
+                        // `<<` opens a quoted triple; it never starts an IRI
+                        current.push(chars.next().unwrap());
                         depth += 1;
-                    } else if depth == 0 {
+                    } else {
                         in_uri = true;
                     }
                 }
@@ -286,7 +288,8 @@ impl SparqlDatabase {
                     current.push(ch);
                     if in_uri {
                         in_uri = false;
-                    } else if current.ends_with(">>") && depth > 0 {
+                    } else if depth > 0 && chars.peek() == Some(&'>') {
+                        current.push(chars.next().unwrap());
                         depth -= 1;
                     }
                 }
